@@ -185,6 +185,16 @@ func leaf(n *Node, v, ctr int) *VNode {
 		}
 		vn.Canon = cBool(b)
 	case "bitstring":
+		if n, ok := n.numParam("len"); ok {
+			// length-octet dimension: exactly n content octets (padding count + n-1 data octets)
+			data := bytes.Repeat([]byte{0xa5 ^ byte(v)}, n-1)
+			pad := 0
+			if n > 1 && v == 2 {
+				pad, data[n-2] = 4, 0xa0
+			}
+			vn.Content, vn.Canon = append([]byte{byte(pad)}, data...), cBits(data, 8*(n-1)-pad)
+			break
+		}
 		switch v {
 		case 0:
 			vn.Content, vn.Canon = []byte{4, byte(ctr), 0xF0}, cBits([]byte{byte(ctr), 0xF0}, 12)
@@ -226,6 +236,12 @@ func leaf(n *Node, v, ctr int) *VNode {
 			time.Date(1949, 12, 31, 23, 59, ctr%50, 0, time.UTC)}[v]
 		vn.setTime(t, true)
 	case "bytes":
+		if n, ok := n.numParam("len"); ok {
+			// length-octet dimension: exactly n content octets
+			vn.Content = bytes.Repeat([]byte{0xa5 ^ byte(v)}, n)
+			vn.Canon = cOctets(vn.Content)
+			break
+		}
 		switch v {
 		case 0:
 			vn.Content = []byte{0xde, 0xad, byte(ctr)}
@@ -275,6 +291,16 @@ func build(n *Node, v int, ctr *int) *VNode {
 	case "struct":
 		for _, k := range n.Kids {
 			vn.Kids = append(vn.Kids, build(k, v, ctr))
+		}
+		if want, ok := n.numParam("body"); ok {
+			// length-octet dimension: the specification states the body length, the builder must agree
+			got := 0
+			for _, k := range vn.Kids {
+				got += len(encode(k))
+			}
+			if got != want {
+				panic(fmt.Sprintf("SEQUENCE body is %d octets, the specification says %d", got, want))
+			}
 		}
 	case "explicit":
 		vn.Kids = []*VNode{build(n.Kids[0], v, ctr)}
